@@ -648,6 +648,9 @@ func (x *Exec) evalCall(e *Expr, env *Env) Val {
 	case "int":
 		a := args()[0]
 		return specInt(a.T)
+	case "wrapi32", "wrapu32", "wrapi64", "wrapu64":
+		a := args()[0]
+		return specInt(sx(e.Name, a.T))
 	case "f32frombits":
 		a := args()[0]
 		return Val{K: KFP, T: sx("f32", a.T), Typ: types.Typ[types.Float32]}
@@ -738,6 +741,17 @@ func (x *Exec) evalCall(e *Expr, env *Env) Val {
 			r.Typ = el
 		}
 		return r
+	case "fpeq", "fplt", "fpgt", "fple", "fpge":
+		as := args()
+		w := x.fpWidth(as[0])
+		if w == 0 {
+			w = x.fpWidth(as[1])
+		}
+		if w == 0 {
+			w = 64
+		}
+		op := map[string]string{"fpeq": "fp.eq", "fplt": "fp.lt", "fpgt": "fp.gt", "fple": "fp.leq", "fpge": "fp.geq"}[e.Name]
+		return specBool(sx(op, fpTerm(as[0], w), fpTerm(as[1], w)))
 	case "fpconst":
 		a := args()[0]
 		return Val{K: KFP, T: fpTerm(a, 64)}
